@@ -24,8 +24,17 @@ sh(f"git -C /repo apply {patch}")
 try:
     comp = sh("/venv/bin/python -m compileall -q /repo/src/lian")
     ev = tempfile.mkdtemp()
-    chk = sh(f"cd {V} && /venv/bin/python -m sa.check {pid} --evidence-dir {ev}")
+    chk = sh(f"cd {V} && /venv/bin/python -m sa.check {pid} --evidence-dir {ev}") if os.path.exists(f"{V}/sa/rules/{pid.lower()}.py") else subprocess.CompletedProcess("", 0, "", "")
     viol = [l for l in chk.stdout.splitlines() if l.startswith("VIOLATION") or "[" + pid + ".R" in l]
+    others = {}
+    import glob
+    for rp in sorted(glob.glob(f"{V}/sa/rules/c[0-9][0-9].py")):
+        op = os.path.basename(rp)[:-3].upper()
+        if op == pid:
+            continue
+        r2 = sh(f"cd {V} && /venv/bin/python -m sa.check {op} --evidence-dir {ev}")
+        if r2.returncode == 1:
+            others[op] = [l.strip()[:300] for l in r2.stdout.splitlines() if "[" + op + ".R" in l][:3]
     d_with = sh(f"/venv/bin/python {demo} /repo", env=env, timeout=900)
 finally:
     sh("git -C /repo checkout -- .")
@@ -37,6 +46,7 @@ res = {
     "check_exit_with_change": chk.returncode,
     "check_report": [l.strip()[:400] for l in viol if not l.startswith("VIOLATION")][:6],
     "detected": chk.returncode == 1,
+    "detected_by_other_checks": others,
 }
 print(json.dumps(res, indent=1))
 print("demo(with) tail:", (d_with.stdout + d_with.stderr)[-400:])
